@@ -158,7 +158,7 @@ def rundir(pid):
 
 def coqc_file(path, timeout=900):
     d = os.path.dirname(path)
-    rc, out = sh(["timeout", str(timeout), "coqc"] + COQ_FLAGS + ["-R", d, "Run", path], cwd=d, timeout=timeout + 30)
+    rc, out = sh(["timeout", str(timeout), "coqc", "-noglob"] + COQ_FLAGS + ["-R", d, "Run", path], cwd=d, timeout=timeout + 30)
     return rc, out
 
 
@@ -200,8 +200,8 @@ def check_theorems(pid):
         axioms = []
         if "Closed under the global context" not in body:
             for line in body.splitlines():
-                m = re.match(r"^([A-Za-z_][A-Za-z0-9_.']*)\s*:", line)
-                if m:
+                m = re.match(r"^([A-Za-z_][A-Za-z0-9_.']*)\s*(:|$)", line)
+                if m and m.group(1) != "Axioms":
                     axioms.append(m.group(1))
         bad = [a for a in axioms if a not in ALLOWED_AXIOMS and not a.startswith(ALLOWED_AXIOM_PREFIXES)]
         res.append({"name": name, "ok": not bad, "axioms": axioms,
@@ -425,8 +425,10 @@ def correspond(chk, name, imports, case_type, check_fn, cases, pred_fail, descri
     match_of   : optional i -> dict compared against known_findings.json
     Records one obligation `name`; reports counterexamples for predicate failures and a
     tie-broken violation when model and implementation disagree without a predicate failure."""
+    t_c = time.time()
     bad = run_case_shards(chk.pid, name, imports, case_type, check_fn, cases, shard=shard, jobs=jobs,
                           timeout=timeout) if cases else []
+    chk.stats[f"{name}.coq_wall_s"] = round(time.time() - t_c, 1)
     chk.oblige("correspondence", name, not bad,
                f"{len(cases)} cases evaluated by vm_compute; model/implementation disagree on {len(bad)}"
                + (f" (first: case {bad[0]})" if bad else ""))
